@@ -440,6 +440,12 @@ func (a *Analyzer) buildDependencies(info *ConstructorInfo) []*Dependency {
 			dep.Type = param.ElemType
 		}
 
+		// A field tagged with a group is filled with the group even when it also carries
+		// a name (the builder looks at the group tag first), so the group is the dependency
+		if param.Group != "" {
+			dep.Key = nil
+		}
+
 		deps = append(deps, dep)
 	}
 
